@@ -366,6 +366,28 @@ def run(ck: Check) -> int:
                                               'wcmatch/glob.py:_glob_dir/_iter hidden filter'))
                 else:
                     tstats['hidden_results_granted_by_written_dot'] += 1
+        # exclusions of the WALKER behave as if DOTGLOB were set, given by exclude= as well as inline (added after seeded change C03h:
+        # Glob.__init__ forced DOTMATCH on its exclusion flags only when NEGATE was set, and exclude= clears NEGATE): hidden results,
+        # granted by a written dot of the inclusion, against exclusions that need a wildcard to take that dot
+        if (not dotfree and c.mode == 'root_dir' and isinstance(c.pats, str)
+                and not c.flags & (G.NEGATE | G.MARK | G.NODIR | G.NOUNIQUE | G.MATCHBASE | G.IGNORECASE) and any(_hidden_seg(r_) for r_ in res)):
+            mfl = c.flags & (G.GLOBSTAR | G.EXTGLOB | G.GLOBSTARLONG | G.FOLLOW)
+            for q in ('*', '**/*', '*/*', '?*', '**/?', '**/[!x]', '*/**', '**', '?f', '*/?'):
+                def _excluded(r_):
+                    isd = os.path.isdir(os.path.join(t.root, r_))
+                    return G.globmatch(r_.rstrip('/') + '/' if isd else r_, q, flags=(mfl & ~G.FOLLOW) | G.DOTGLOB)
+                want = [r_ for r_ in res if not _excluded(r_)]
+                try:
+                    with common.time_limit(10):
+                        got_e = G.glob(c.pats, flags=c.flags, root_dir=t.root, exclude=q)
+                        got_i = G.glob([c.pats, '!' + q], flags=c.flags | G.NEGATE, root_dir=t.root)
+                except common.CallTimeout:
+                    continue
+                tstats['walker_exclusions'] = tstats.get('walker_exclusions', 0) + 1
+                for how, got in (('exclude=', got_e), ('inline !', got_i)):
+                    if got != want:
+                        tree_found.append(Failing(f'glob({c.pats!r}) with the exclusion {q!r} ({how}): the exclusion does not behave as if DOTGLOB were set',
+                                                  {**c.to_json(G, t), 'exclusion': q, 'given': how}, want[:10], got[:10], 'wcmatch/glob.py:Glob.__init__ (negate_flags)'))
         # the same pattern through pathlib and WcMatch (dot-free patterns only)
         if dotfree and c.mode == 'root_dir' and isinstance(c.pats, str) and not c.flags & G.NEGATE:
             pfl = c.flags & ~(G.MARK | G.NOUNIQUE)
